@@ -2006,7 +2006,7 @@ func (e *Env) applyHint(h Hint, cond string) {
 	case "assert":
 		f := e.evalBool(h.E)
 		e.flushSide(cond)
-		vc.oblige("hint.assert", "", cond, f, exprString(h.E))
+		vc.oblige("hint.assert", h.Name, cond, f, exprString(h.E))
 		vc.assumeIf(cond, f)
 	case "unfold":
 		// evaluating the application emits its unfolding instance
@@ -2174,6 +2174,39 @@ func (e *Env) evalLocs(x Expr) []modLoc {
 			}
 			ks, vs, _ := e.ghostSorts(g)
 			return []modLoc{{heap: "GH." + g.Name, hsort: "(Array " + ks + " " + vs + ")", ghost: g, whole: true}}
+		}
+		if cv, ok := e.vars[n.Name]; ok && cv.cellOf != nil {
+			// a captured variable: the variable itself (for a pointer or map variable, as before, what it refers to)
+			switch cv.cellOf.Underlying().(type) {
+			case *types.Pointer, *types.Map:
+			default:
+				l := vc.locOfRef(cv.t, cv.cellOf)
+				if l.kind == lStruct {
+					return e.structLocs(l.key, cv.cellOf)
+				}
+				return []modLoc{{heap: l.heap, hsort: l.hsort, key: cv.t}}
+			}
+		}
+		if _, shadowed := e.vars[n.Name]; !shadowed && !e.noFnNames && vc.fn != nil {
+			fn := vc.fn
+			if e.fnOverride != nil {
+				fn = e.fnOverride
+			}
+			for _, fv := range fn.FreeVars {
+				if fv.Name() != n.Name {
+					continue
+				}
+				T := fv.Type().Underlying().(*types.Pointer).Elem()
+				switch T.Underlying().(type) {
+				case *types.Pointer, *types.Map:
+				default:
+					l := vc.locOfRef(vc.val(fv), T)
+					if l.kind == lStruct {
+						return e.structLocs(l.key, T)
+					}
+					return []modLoc{{heap: l.heap, hsort: l.hsort, key: vc.val(fv)}}
+				}
+			}
 		}
 		v := e.eval(n)
 		return e.locsOfValue(v, x)
